@@ -37,23 +37,22 @@ OWN_RT = {"P10_count", "C10_quiet", "P01_once", "P02_gate", "P03_prompt", "P07_s
 
 
 class Plan:
-    def __init__(self, name, table, emit_mod, workers=8, **mc):
-        self.name, self.table, self.emit_mod, self.workers, self.mc = name, table, emit_mod, workers, mc
+    def __init__(self, name, table, emit_mod, workers=8, nproc=8, **mc):
+        self.name, self.table, self.emit_mod, self.workers, self.nproc, self.mc = name, table, emit_mod, workers, nproc, mc
 
 
 def config(ctx):
     q = ctx.tier == "quick"
     if q:
         return dict(
-            plans=[Plan("q1i2", "S_q1", 60, workers=10, max_inst=2, max_pw=1),
-                   Plan("t1di4", "S_t1d", 20, workers=3, max_inst=4, max_pw=0, pw_on=False),
-                   Plan("q1i3nt", "S_q1", 25, workers=3, max_inst=3, max_pw=0, pw_on=False, stray=1, timeout_on=False)],
+            plans=[Plan("q1i2", "S_q1", 120, workers=10, nproc=6, max_inst=2, max_pw=1),
+                   Plan("t1di4", "S_t1d", 40, workers=3, nproc=2, max_inst=4, max_pw=0, pw_on=False),
+                   Plan("q1i3nt", "S_q1", 25, workers=3, nproc=2, max_inst=3, max_pw=0, pw_on=False, stray=1, timeout_on=False)],
             long_mc=[("x1", [1], dict(max_serial=4, workers=2)),
-                     ("x1rt", [1], dict(max_serial=4, real_time=True, workers=2)),
-                     ("x2", [1, 2], dict(max_serial=2, workers=4))],
-            long_gen=dict(jvms=6, num=1, depth=2500, ids=16), very_long=None,
+                     ("x1rt", [1], dict(max_serial=4, real_time=True, workers=2))],
+            long_gen=dict(jvms=3, num=2, depth=2500, ids=16), very_long=None,
             rt=dict(seconds=1, from_plan=48, long_num=16, long_depth=50, long_ids=8),
-            per_proc=40, nproc=6)
+            per_proc=40, nproc=3)
     return dict(
         plans=[Plan("q1i3", "S_q1", 60, workers=16, max_inst=3, max_pw=1, stray=1),
                Plan("t1ai2", "S_t1a", 60, workers=16, max_inst=2, max_pw=1),
@@ -66,7 +65,7 @@ def config(ctx):
                  ("x3rt", [1, 2, 3], dict(max_serial=2, real_time=True, workers=16))],
         long_gen=dict(jvms=8, num=8, depth=5000, ids=16), very_long=dict(jvms=4, depth=40000, ids=24),
         rt=dict(seconds=2, from_plan=400, long_num=120, long_depth=110, long_ids=12, also_seconds=1),
-        per_proc=40, nproc=8)
+        per_proc=40, nproc=12)
 
 
 def _rt_part(ctx, cfg, plan_beh, svcs, box):
@@ -111,6 +110,7 @@ def run(ctx):
     rep = C.Reporter(ctx, OWN_HOOK, OWN_RT)
     obs = {"steps": 0, "inuse_reports": 0, "eof": 0, "eof_clean": 0, "eof_pending": 0, "replacements": 0, "announcements": 0,
            "verdicts": 0, "withdrawn": 0, "hook_timeouts": 0, "max_inuse": 0}
+    model = {"replacements": 0, "withdrawn": 0, "timeouts": 0, "verdicts": 0, "end_pending": 0}
     distinct = set()
     t_all = time.time()
 
@@ -142,11 +142,23 @@ def run(ctx):
             rt_thread.start()
         behaviours = [[s["e"] for s in b] for b in beh]
         tails = [R.probe_tail(b, svcs) for b in behaviours]
+        for b in beh:       # what the model says these behaviours exercise (independent of the code under test)
+            prev = 0
+            for s in b:
+                if s["e"]["e"] == "C" and s["n"] == prev:
+                    model["replacements"] += 1
+                elif s["e"]["e"] in ("D", "T") and s["n"] < prev:
+                    model["withdrawn"] += 1
+                elif s["e"]["e"] == "TO":
+                    model["timeouts"] += 1
+                model["verdicts"] += sum(1 for m in s["o"] if m["k"] in ("D", "R", "k"))
+                prev = s["n"]
+            model["end_pending"] += 1 if prev > 0 else 0
         t1 = time.time()
-        res = C.hook_replay(ctx, behaviours, svcs, timeout_on, nproc=cfg["nproc"], tag=p.name, tails=tails,
+        res = C.hook_replay(ctx, behaviours, svcs, timeout_on, nproc=p.nproc, tag=p.name, tails=tails,
                             per_proc=cfg["per_proc"], live_every=2)
         t2 = time.time()
-        vals = C.validate_many(ctx, res, nthreads=cfg["nproc"])
+        vals = C.validate_many(ctx, res, nthreads=p.nproc)
         t3 = time.time()
         nf = 0
         for x, v in zip(res, vals):
@@ -181,9 +193,9 @@ def run(ctx):
         r, lb = fut.result()
         longs += [[dict(s["e"], pn=s["pn"]) for s in b] for b in lb]
     t1 = time.time()
-    res = C.hook_replay(ctx, longs, svcs, True, nproc=min(cfg["nproc"] * 2, 12), tag="long", per_proc=1, live_every=2)
+    res = C.hook_replay(ctx, longs, svcs, True, nproc=cfg["nproc"], tag="long", per_proc=1, live_every=2)
     t2 = time.time()
-    vals = C.validate_many(ctx, res, nthreads=min(cfg["nproc"] * 2, 12))
+    vals = C.validate_many(ctx, res, nthreads=cfg["nproc"])
     t3 = time.time()
     plain = [[{k: v for k, v in e.items() if k != "pn"} for e in h] for h in longs]
     lobs = dict(obs, max_inuse=0, announcements=0, replacements=0)
@@ -248,10 +260,16 @@ def run(ctx):
     # ---- anti-vacuity ---------------------------------------------------------------------------------------------
     ctx.cov["distinct_nontrivial"] = len(distinct)
     ctx.cov["observed"] = obs
+    ctx.cov["model_says_exercised"] = model
     ctx.cov["exhaustive"] = False
+    if ctx.violations:
+        return                      # the findings are the result; the counts below describe a run on correct code
+    for k, v in model.items():
+        if not v:
+            raise MachineryError("vacuous run: the replayed model behaviours contain no %s" % k)
     if obs["inuse_reports"] != obs["steps"]:
         raise MachineryError("vacuous: %d of %d steps carried no in-use number" % (obs["steps"] - obs["inuse_reports"], obs["steps"]))
-    for k in ("eof", "eof_pending", "replacements", "verdicts", "withdrawn", "hook_timeouts"):
+    for k in ("eof", "eof_pending", "verdicts", "hook_timeouts"):
         if not obs[k]:
             raise MachineryError("vacuous run: no %s observed in the hook-mode traces" % k)
     for k in ("wait_records", "timer_firings", "firings_with_output", "eof"):
